@@ -49,11 +49,14 @@ def suites():
         "x_seg13f": (variant("seg13", "x_seg13f", embed={"shape": [66, 66, 70], "tmap": [0, 63, 65],
                                                          "amap": [[0], [0, 63, 64]]}), 40, 600),
         "x_seg3d": (variant("seg3d", "x_seg3d"), 40, 600),
+        # an 8-bit label array whose nodes carry track ids beyond 8 bits (real id = model id + 300): the exported
+        # array is labelled by track id, so its dtype cannot be the source's
+        "x_seg13b": (variant("seg13", "x_seg13b", rebuild={"shift": -300}, seg_dtype="uint8"), 40, 600),
     }
 
 
 PLAN = {"C14": ["x_struct4", "x_struct0", "x_structc", "x_peraxis", "x_seg13", "x_seg13n", "x_seg3d"],
-        "C15": ["x_struct4", "x_struct0", "x_seg13e", "x_seg13f", "x_seg3d"],
+        "C15": ["x_struct4", "x_struct0", "x_seg13e", "x_seg13f", "x_seg3d", "x_seg13b"],
         "C16": ["x_struct4", "x_struct0", "x_peraxis", "x_structz", "x_seg13e", "x_seg13f", "x_seg13n", "x_seg3d"]}
 
 RULE = {"C14": "one record per (catalogue state, format in csv/geff/internal); non-trivial = state with at least one edge",
